@@ -18,7 +18,11 @@
       ZeroWidthEscape branch, patch_stdout raw mode);
    d. every `<..>output.write(arg)` call outside output/ has a string literal,
       `_dumb_terminal_text(..)` (which must map through Char.display_mappings),
-      or is one of the two safe-print sites.
+      or is one of the two safe-print sites;
+   e. every in-package caller of Application.print_text / print_formatted_text is
+      listed in PRINT_CALL_SITES with what it prints; the one that prints displayed
+      content (the READLINE_LIKE completion listing) is recorded as mapped / not
+      mapped (`readline_listing_mapped` in the Gen file).
    `scan(repo)` returns the list of problems (empty = side condition holds) and
    the inventory of classified sites; harness/c10.py calls it as well to report
    a specific violation."""
@@ -75,6 +79,21 @@ SAFE_PRINT_WRITE_SITES = {
     ("renderer.py", "output.write(text)"),           # print_formatted_text
     ("patch_stdout.py", "self._output.write(text)"),  # StdoutProxy
 }
+
+
+# In-package callers of the print path (Application.print_text /
+# renderer.print_formatted_text -> Vt100_Output.write, which only replaces ESC).
+# (relative path, enclosing function) -> what is printed.  A caller that prints
+# DISPLAYED CONTENT must map it first ("mapped": must go through
+# _show_control_characters); any caller not listed fails the scan.
+PRINT_CALL_SITES = {
+    ("shortcuts/utils.py", "render"): "shortcuts.print_formatted_text (public API: values the application prints (safe print path: only the no-ESC clause)",
+    ("application/application.py", "print_text"): "Application.print_text itself",
+    ("application/application.py", "run_command"): "run_system_command(display_before_text=..): application supplied",
+    ("contrib/telnet/server.py", "send"): "TelnetConnection.send: application supplied text",
+    ("key_binding/bindings/completion.py", "display"): "mapped",   # completion display text: displayed content
+}
+PRINT_FUNCS = {"print_text", "print_formatted_text", "renderer_print_formatted_text"}
 
 
 def die(msg):
@@ -393,7 +412,7 @@ def scan(repo=None):
                 seg = ast.get_source_segment(src, n) or ""
                 if "data_buffer" in seg or "zero_width_escapes" in seg:
                     problems.append("%s line %d: module-level code mentions a screen buffer" % (os.path.basename(p), n.lineno))
-    ncell = sum(1 for s in sites if "zero_width" not in s[2] and not s[0].endswith(":write"))
+    ncell = sum(1 for s in sites if "zero_width" not in s[2] and not s[0].endswith(":write") and not s[0].endswith(":print"))
     if ncell < 8:
         problems.append("only %d screen cell stores recognised (expected >= 8): the scan no longer understands the code" % ncell)
     # write_raw call sites outside output/
@@ -451,6 +470,34 @@ def scan(repo=None):
             if not ok:
                 problems.append("%s line %d: unreviewed text write `%s` (not a literal, not through _dumb_terminal_text)"
                                 % (rel, n.lineno, _u(n).replace("\n", " ")[:120]))
+    # callers of the print path
+    scan.readline_mapped = None
+    for p in sorted(glob.glob(root + "/**/*.py", recursive=True)):
+        rel = os.path.relpath(p, root)
+        src = open(p, encoding="utf-8").read()
+        if "print_text" not in src and "print_formatted_text" not in src:
+            continue
+        tree = ast.parse(src)
+        funcs = [n for n in ast.walk(tree) if isinstance(n, (ast.FunctionDef, ast.AsyncFunctionDef))]
+        for n in ast.walk(tree):
+            if not isinstance(n, ast.Call):
+                continue
+            name = n.func.attr if isinstance(n.func, ast.Attribute) else n.func.id if isinstance(n.func, ast.Name) else None
+            if name not in PRINT_FUNCS:
+                continue
+            encl = [f for f in funcs if f is not n and any(m is n for m in ast.walk(f))]
+            encl.sort(key=lambda f: f.lineno)
+            fn = encl[-1].name if encl else "<module>"
+            what = PRINT_CALL_SITES.get((rel, fn))
+            sites.append(("%s:print" % rel, n.lineno, "%s in %s" % (_u(n).replace("\n", " ")[:80], fn)))
+            if what is None:
+                problems.append("%s line %d: unreviewed caller of the print path `%s` in %s (add to PRINT_CALL_SITES after review: "
+                                "displayed content must be mapped through Char.display_mappings first)" % (rel, n.lineno, _u(n)[:100], fn))
+            elif what == "mapped":
+                body = _u(encl[-1])
+                scan.readline_mapped = "_show_control_characters(" in body
+    if scan.readline_mapped is None:
+        problems.append("key_binding/bindings/completion.py: the readline-like listing's print_text call was not found")
     # _dumb_terminal_text must map through Char.display_mappings
     try:
         src = open(root + "/shortcuts/prompt.py", encoding="utf-8").read()
@@ -492,6 +539,9 @@ def t_C10_DisplayMappings():
             "Definition store_sites_reviewed : bool := %s.\n\n"
             "(* text arguments of the stored Char(..)/_CHAR_CACHE[..] by dataflow class: %s *)\n"
             "Definition text_args_reviewed_by_hand : Z := %d.\n\n"
+            "(* completion.py _display_completions_like_readline.display prints completion display text with\n"
+            "   app.print_text; true when it maps it through _show_control_characters first (finding C10-F2 repaired) *)\n"
+            "Definition readline_listing_mapped : bool := %s.\n\n"
             "(* input/ansi_escape_sequences.py ANSI_SEQUENCES: every key of more than one character,\n"
             "   with utils.get_cwidth of it (the data a multi-character key press can carry) *)\n"
             "Definition key_sequences : list (list Z * Z) :=\n  [%s].\n"
@@ -499,6 +549,7 @@ def t_C10_DisplayMappings():
                "".join("\n   - " + pr.replace("*)", "* )").replace("(*", "( *") for pr in problems[:10]),
                "false" if problems else "true",
                ", ".join("%s %d" % kv for kv in sorted(cls.items())), cls.get("reviewed", 0),
+               "true" if getattr(scan, "readline_mapped", False) else "false",
                ";\n   ".join(seqs)))
     return emit("C10_DisplayMappings", body)
 
